@@ -395,3 +395,23 @@ def hist(tier, seed, params):
                 held += iters.pop(0); ops.append(op)
         out.append("kind=%s ops=%s" % ("z" if rng.random() < 0.25 else "tr", ";".join(ops)))
     return out
+
+
+HEX_NS = list(range(0, 18)) + [31, 32, 33, 1023, 1024, 1025, 2047, 2048, 2049, 3000, 4096]
+
+
+def hex_(tier, seed, params):
+    rng = random.Random(seed)
+    out = []
+    for n in HEX_NS:
+        pats = [(1, 1), (7, 3), (37, 250)] if n <= 33 else [(3, 5), (251, 17)]
+        if n <= 33:
+            precs = ["none"] + [str(p) for p in range(0, 2 * n + 3)]
+        else:
+            small_b = [0, 1, 2, 3, 7, 31, 32, 33, 2047, 2048, 2049, 2050, 2051, 4095, 4096, 4097, 6143, 6144, 6145]
+            precs = ["none"] + [str(p) for p in sorted(set(small_b + [2 * n - 2, 2 * n - 1, 2 * n, 2 * n + 1, 2 * n + 2, n, n + 1] + [rng.randint(0, 2 * n + 2) for _ in range(6 if tier == "quick" else 60)])) if p >= 0]
+        for (a, b) in pats:
+            for upper in (0, 1):
+                for p in precs:
+                    out.append("n=%d upper=%d prec=%s a=%d b=%d" % (n, upper, p, a, b))
+    return out
